@@ -1117,8 +1117,8 @@ PROPS = {
                 assumptions=['rustc evaluates the const tables as dumped by the same binary at run time']),
     'C05': dict(modules=['Inkayaku.Props.C05', 'Inkayaku.Props.Closure'], theorems=['Inkayaku.Closure.no_moves_iff_rules', 'Inkayaku.C05.square_attacked', 'Inkayaku.C05.in_check', 'Inkayaku.C05.current_in_check', 'Inkayaku.C05.valid', 'Inkayaku.C05.move_legal', 'Inkayaku.C05.wf_not_in_check', 'Inkayaku.C05.occupancy_in_check', 'Inkayaku.C05.no_moves_iff'], cases=c05_cases, anchors=BOARD_ANCHORS),
     'C06': dict(modules=['Inkayaku.Props.C06', 'Inkayaku.Props.C06Gen'], theorems=['Inkayaku.C06Gen.hash_incremental_generated', 'Inkayaku.C06Gen.ep_key_by_file', 'Inkayaku.C06Gen.pawnHash_incremental_generated', 'Inkayaku.C06.hash_incremental', 'Inkayaku.C06.pawnHash_incremental', 'Inkayaku.C06.hash_congr', 'Inkayaku.C06.hash_vis', 'Inkayaku.C06.hash_clocks', 'Inkayaku.C06.keys_good', 'Inkayaku.C06.hash_side', 'Inkayaku.C06.hash_toggles_right', 'Inkayaku.C06.hash_ep_file', 'Inkayaku.C06.hash_moves_piece', 'Inkayaku.C06.hash_changes_kind'], cases=c06_cases, post=c06_post, anchors=BOARD_ANCHORS),
-    'C10': dict(modules=['Inkayaku.Props.C10', 'Inkayaku.Props.C10Fifty', 'Inkayaku.Props.C10Search', 'Inkayaku.Props.C10Rep'],
-                theorems=['Inkayaku.C10Rep.' + n for n in 'repSearch_eq_mm repSearch_order_irrelevant rule_never_at_root rule_applies_iff rule_value rule_otherwise occurrences_agree isRepetition_iff_occurrences go_depth1_eq_repSpec go_depth1_searchmoves_eq_repSpec'.split()] + ['Inkayaku.C10Search.' + n for n in 'history_of_setPosition node_repetition_iff node_repetition search_never_writes_below node_hyp_inherited root_child_repetition_iff go_threefold go_no_threefold go_depth1_game repValue_const irreversible_move_closes_window window_is_reversible_suffix'.split()] + ['Inkayaku.C10.countRepetitions_value', 'Inkayaku.C10.countRepetitions_spec',
+    'C10': dict(modules=['Inkayaku.Props.C10', 'Inkayaku.Props.C10Fifty', 'Inkayaku.Props.C10Search', 'Inkayaku.Props.C10Rep', 'Inkayaku.Props.C10Deep', 'Inkayaku.Props.C10DeepGhi'],
+                theorems=['Inkayaku.C10Deep.' + n for n in 'go_depth2_eq_repSpec go_depth3_eq_repSpec go_depth_eq_repSpec rhashInj_le3 node_value node_repetition_iff_spec'.split()] + ['Inkayaku.C10Rep.' + n for n in 'repSearch_eq_mm repSearch_order_irrelevant rule_never_at_root rule_applies_iff rule_value rule_otherwise occurrences_agree isRepetition_iff_occurrences go_depth1_eq_repSpec go_depth1_searchmoves_eq_repSpec'.split()] + ['Inkayaku.C10Search.' + n for n in 'history_of_setPosition node_repetition_iff node_repetition search_never_writes_below node_hyp_inherited root_child_repetition_iff go_threefold go_no_threefold go_depth1_game repValue_const irreversible_move_closes_window window_is_reversible_suffix'.split()] + ['Inkayaku.C10.countRepetitions_value', 'Inkayaku.C10.countRepetitions_spec',
                           'Inkayaku.C10.never_reads_above_start', 'Inkayaku.C10.threefold_iff',
                           'Inkayaku.C10.max_half_moves', 'Inkayaku.C10.fifty_only_after_100', 'Inkayaku.C10.fifty_draw_from_100',
                           'Inkayaku.C10.terminal_ignores_clock'],
